@@ -46,3 +46,30 @@ pub mod math {
 pub mod pretty_print {
     pub use crate::pretty_print::*;
 }
+pub mod vm {
+    pub use crate::vm::{Constant, Op, Vm};
+}
+pub mod typechecker {
+    pub use crate::typechecker::TypeChecker;
+}
+pub mod unit_registry {
+    pub use crate::unit_registry::*;
+}
+
+/// Runs a hand-assembled `Vm` program with an empty execution context (no unit names
+/// registered, default name resolution / type checker state). Printed markup goes to `print_fn`.
+pub fn run_vm(
+    vm: &mut crate::vm::Vm,
+    print_fn: &mut crate::interpreter::PrintFunction,
+) -> Result<crate::InterpreterResult, Box<crate::RuntimeError>> {
+    let unit_name_to_constant_idx = std::collections::HashMap::new();
+    let prefix_transformer = crate::prefix_transformer::Transformer::new();
+    let typechecker = crate::typechecker::TypeChecker::default();
+    let mut ctx = crate::vm::ExecutionContext {
+        print_fn,
+        unit_name_to_constant_idx: &unit_name_to_constant_idx,
+        prefix_transformer: &prefix_transformer,
+        typechecker: &typechecker,
+    };
+    vm.run(&mut ctx)
+}
